@@ -14,6 +14,7 @@ import math
 import os
 import random
 import re
+import time
 import traceback
 
 import torch
@@ -478,7 +479,12 @@ def eval_case(case):
                     # CIQ starts its eigenvalue-estimating Lanczos run at the first noise vector of every member: an
                     # exactly zero vector (possible for dyadic noise, probability 0 for Gaussian noise) is degenerate
                     zs = [[x if x != 0 else 0.25 for x in z] for z in zs]
-                out1, plan1 = N.run_with(patch, op.zero_mean_mvn_samples, k, zs)
+                if st[0]:
+                    with N.ciq_recorder() as rec:
+                        out1, plan1 = N.run_with(patch, op.zero_mean_mvn_samples, k, zs)
+                    res["ciq_rules"], res["ciq_rec_errors"] = rec.rules, rec.errors
+                else:
+                    out1, plan1 = N.run_with(patch, op.zero_mean_mvn_samples, k, zs)
                 base = None
                 if st[0]:      # CIQ: finite differences around generic noise (see c18_noise.jacobian)
                     g = torch.Generator().manual_seed(case["nseed"] % (1 << 31))
@@ -781,10 +787,13 @@ def run(ctx):
                       "expr": {"cls": "AddedDiag(probe)"}})
 
     state = {"results": None}
+    phase = {}
 
     def evaluate():
         if state["results"] is None:
+            t0 = time.time()
             state["results"] = run_cases(cases)
+            phase["evaluate_s"] = round(time.time() - t0, 1)
         return state["results"]
 
     def on_fail(info):
@@ -800,7 +809,9 @@ def run(ctx):
             found = sum(report(ctx, c, r, seen) for c, r in zip(wide, run_cases(wide)))
         return found > 0
 
+    t0 = time.time()
     ok = common.proof_stage(ctx, on_fail)
+    phase["proof_stage_s"] = round(time.time() - t0, 1)
     results = evaluate()
     seen = set()
     direct = 0
@@ -815,9 +826,18 @@ def run(ctx):
     shards = []
     for s in range(0, len(coq_idx), SH):
         shards.append(("c18_%d" % (s // SH), M.shard_src([results[i]["coq"] for i in coq_idx[s:s + SH]])))
+    n_main = len(shards)
+    # CIQ broadcast of the per-member quadrature rule over the sample axis (ModelBatch.t_expand_lead)
+    ciq_items = [(i, rule) for i, r in enumerate(results) for rule in (r.get("ciq_rules") or [])]
+    CSH = 40
+    for s in range(0, len(ciq_items), CSH):
+        shards.append(("c18_ciq_%d" % (s // CSH), M.ciq_shard_src([M.coq_ciq_case(rule, 1e-9) for _, rule in ciq_items[s:s + CSH]])))
     mism = []
+    ciq_mism = []
     if ok and shards:
+        t0 = time.time()
         out = common.run_shards(ctx, shards, timeout=600)
+        phase["shards_s"] = round(time.time() - t0, 1)
         for si, (name, _) in enumerate(shards):
             rc, o = out[name]
             bad = parse_bad(o) if rc == 0 else None
@@ -825,7 +845,25 @@ def run(ctx):
                 ctx.violation({"kind": "shard-failed", "shard": name, "out": o[-600:]}, no_input=True)
                 continue
             for x in bad:
-                mism.append((coq_idx[si * SH + x // 8], x % 8))
+                if si < n_main:
+                    mism.append((coq_idx[si * SH + x // 8], x % 8))
+                else:
+                    ciq_mism.append((ciq_items[(si - n_main) * CSH + x // 8], x % 8))
+    n_ciq_alarm = 0
+    for (i, rule), code in ciq_mism:
+        if results[i]["fails"]:
+            continue          # already reported with a concrete failing input by the direct predicate
+        n_ciq_alarm += 1
+        if n_ciq_alarm <= 3:
+            ctx.violation({"kind": "model-implementation-disagreement",
+                           "comparison": "ciq-broadcast-" + {1: "rule-size", 2: "weights", 3: "shifts"}.get(code, str(code)),
+                           "case": dict(cases[i]), "observed": {k: rule[k] for k in ("Q", "k", "B", "W_shape", "S_shape")},
+                           "correspondence": "coq/C18/Check.v check_ciq (t_expand_lead of the per-member rule vs the rule used)"},
+                          no_input=True)
+    for i, r in enumerate(results):
+        if r.get("ciq_rec_errors") and not r["fails"]:
+            ctx.violation({"kind": "model-implementation-disagreement", "comparison": "ciq-broadcast (rule could not be recorded)",
+                           "case": dict(cases[i]), "trace": r["ciq_rec_errors"][:2]}, no_input=True)
     n_model_alarm = 0
     for i, code in mism:
         c, r = cases[i], results[i]
@@ -880,9 +918,10 @@ def run(ctx):
                 "(max_cholesky_size=2), fastoff (max_cholesky_size=2, covar_root_decomposition off), ciq} x batch kind x k x size "
                 "{1,2,3,5}; non-trivial = the sampler returned draws and the complete noise->draws matrix was reconstructed; "
                 "distinct by (class tree, setting, output shape, k, randn call shapes)",
-        "cells": len(cells), "generator_errors": len(gen_err),
+        "cells": len(cells), "generator_errors": len(gen_err), "phase_seconds": phase,
         "skipped_constructor": sum(1 for r in results if r.get("skip")),
         "coq_compared": len(coq_idx), "coq_mismatches": len(mism), "model_alarms": n_model_alarm,
+        "ciq_rules_compared": len(ciq_items), "ciq_rule_mismatches": len(ciq_mism),
         "direct_property_failures": direct,
         "root_accuracy_not_assessed": sum(1 for r in results if any("not assessed" in x for x in r.get("notes", []))),
         "unmodelled": sum(1 for r in results if any(x.startswith("unmodelled") for x in r.get("notes", []))),
